@@ -29,6 +29,12 @@ impl BlockUnclesVerifier {
                 return StatusCode::BlockUnclesAreUnmatchedWithPendingCompactBlock
                     .with_context(format!("Expected({expected_id}) != actual({hash})"));
             }
+            // the header hash does not cover the proposals section itself
+            if uncle.data().as_reader().calc_proposals_hash() != uncle.proposals_hash() {
+                return StatusCode::BlockUnclesAreUnmatchedWithPendingCompactBlock.with_context(
+                    format!("uncle({hash}) proposals do not match its proposals_hash"),
+                );
+            }
         }
 
         Status::ok()
